@@ -23,7 +23,7 @@ type c15Case struct {
 
 var c15EditKinds = []string{"EP", "EC", "EL"}
 var c15Policies = []string{"adv", "sub", "eq", "back", "zero"} // sub: the mtime advances by a millisecond only (same second, usually the same length)
-var c15Other = []string{"TP", "TC", "TL", "TS", "TB", "IP", "IC", "FP", "BP", "FC", "FL"} // F*: front-matter-only edit, BP: body-only edit (mtime advances)
+var c15Other = []string{"TP", "TC", "TL", "TS", "TB", "IP", "IC", "FP", "BP", "FC", "FL", "UP"} // F*: front-matter-only edit, BP: body-only edit (mtime advances)
 var c15Renders = []string{"R1", "R2", "R3", "R4", "R5", "R6", "R7"} // R7: Vue.Render of the page without any caller data // R5: Vue.RenderFragment of the page, R6: RenderString of a template that includes the component
 
 func c15Alphabet() []string {
@@ -65,6 +65,8 @@ func init() {
 		Assumptions: []string{
 			"the reference at every render step is a newly created engine over the current files",
 			"an edit that keeps the file's modification time equal to the previous version's, or sets it to the zero time, is exempt from the freshness claim as the cache documents: the long-lived engine may answer with any version written since the last distinguishable mtime change (checked by rendering every such combination on a fresh engine)",
+			"the exemption ends where the engine itself has seen the file fail: once a render of the long-lived engine has failed on a missing or invalid page, no version older than that one is acceptable for it any more (\"a failed load or render never leaves a stale entry behind\"); the two long-lived engines (Template, Vue) have caches of their own and are tracked separately",
+			"shorthand components registered by WithComponents() and the site configuration (theme.yml, data/*.yml) are read when the engine is created; files added to those sets later are outside the histories generated here",
 			"testing/fstest.MapFS mutated in place is the filesystem; single goroutine",
 		},
 		Exhaustive: func(ctx core.Ctx) bool { return false },
@@ -73,7 +75,7 @@ func init() {
 
 func (p *c15) ID() string { return "C15" }
 func (p *c15) Rule() string {
-	return "histories over a 33-symbol alphabet {edit page/component/layout x mtime policy (advance by a second, advance by a millisecond, equal, backwards, zero), front-matter-only and body-only edits, delete/recreate page/component/layout, create/delete a layout next to the page that shadows layouts/lay.vuego, delete/recreate the default layouts/base.vuego, make page/component invalid (bad YAML), render the page via Load().Render / RenderFile / Vue.Render (with and without caller data; the page reads a variable before a top-level <template> assigns it) / Vue.RenderFragment, render a second page that names no layout, render a string template that includes the component} on a page with front-matter + include + layout + a named slot template that the layout consumes; exhaustive for length <=3 (quick) / <=4 (thorough) each followed by eight renders, plus seeded histories of length 6-20; after every render step the long-lived engine's (bytes, error-ness) is compared with a fresh engine; cache hit/miss/store hook counts prove which comparisons were answered from the cache; non-trivial = history containing at least one edit followed by a render; distinct by the op list"
+	return "histories over a 34-symbol alphabet {edit page/component/layout x mtime policy (advance by a second, advance by a millisecond, equal, backwards, zero), front-matter-only and body-only edits, delete/recreate page/component/layout, create/delete a layout next to the page that shadows layouts/lay.vuego, delete/recreate the default layouts/base.vuego, make page/component invalid (bad YAML), render the page via Load().Render / RenderFile / Vue.Render (with and without caller data; the page reads a variable before a top-level <template> assigns it) / Vue.RenderFragment, render a second page that names no layout, render a string template that includes the component} on a page with front-matter + include + layout + a named slot template that the layout consumes; exhaustive for length <=3 (quick) / <=4 (thorough) each followed by eight renders, plus seeded histories of length 6-20; after every render step the long-lived engine's (bytes, error-ness) is compared with a fresh engine; cache hit/miss/store hook counts prove which comparisons were answered from the cache; non-trivial = history containing at least one edit followed by a render; distinct by the op list"
 }
 
 func (p *c15) exh(ctx core.Ctx) int {
@@ -123,6 +125,7 @@ type c15Version struct {
 	n      int
 	fv, bv int // version stamps of the front-matter and of the body
 	exists bool
+	valid  bool
 	data   string
 	mtime  time.Time
 }
@@ -134,6 +137,11 @@ type c15World struct {
 	keepBV  int
 	mtime   map[string]time.Time
 	hist    map[string][]c15Version // every version ever written, oldest first
+	// floor: index of the oldest version of a file an entry may still hold. A
+	// render that tried to load the file and failed (missing, invalid) raises it:
+	// "a failed load or render never leaves a stale entry behind".
+	floor  map[string]int
+	engine string // which of the two long-lived engines (each has a cache of its own) the current step uses
 }
 
 // accept returns the versions the long-lived engine may legitimately show for
@@ -150,12 +158,27 @@ func (w *c15World) accept(file string) []c15Version {
 	if !cur.exists {
 		return out
 	}
-	for _, v := range h[:len(h)-1] {
+	for i, v := range h[:len(h)-1] {
+		if i < w.floor[w.engine+"/"+file] {
+			continue
+		}
 		if v.exists && (cur.mtime.IsZero() || v.mtime.Equal(cur.mtime)) {
 			out = append(out, v)
 		}
 	}
 	return out
+}
+
+// failedLoad records that a render has just tried to load file and could not
+// (it is missing or invalid): nothing older may be served for it afterwards.
+func (w *c15World) failedLoad(file string) {
+	h := w.hist[file]
+	if len(h) == 0 {
+		return
+	}
+	if cur := h[len(h)-1]; !cur.exists || !cur.valid {
+		w.floor[w.engine+"/"+file] = len(h) - 1
+	}
 }
 
 const (
@@ -194,7 +217,7 @@ func c15Content(file string, fv, v int, valid bool) string {
 }
 
 func newC15World() *c15World {
-	w := &c15World{fs: fstest.MapFS{}, mtime: map[string]time.Time{}, hist: map[string][]c15Version{}}
+	w := &c15World{fs: fstest.MapFS{}, mtime: map[string]time.Time{}, hist: map[string][]c15Version{}, floor: map[string]int{}}
 	for _, f := range []string{c15Page, c15Comp, c15Lay, c15Page2, c15Base} {
 		w.write(f, true, "adv")
 	}
@@ -253,7 +276,7 @@ func (w *c15World) write(file string, valid bool, policy string) {
 	}
 	data := c15Content(file, fv, bv, valid)
 	_ = present
-	w.hist[file] = append(w.hist[file], c15Version{n: w.version, fv: fv, bv: bv, exists: true, data: data, mtime: mt})
+	w.hist[file] = append(w.hist[file], c15Version{n: w.version, fv: fv, bv: bv, exists: true, valid: valid, data: data, mtime: mt})
 	w.mtime[file] = mt
 	w.fs[file] = &fstest.MapFile{Data: []byte(data), Mode: 0o644, ModTime: mt}
 }
@@ -329,13 +352,35 @@ func (p *c15) Exec(ctx core.Ctx, cc any) core.Obs {
 			w.writePart(c15Comp, "fm")
 		case "FL":
 			w.writePart(c15Lay, "fm")
+		case "UP":
+			// delete the page / bring it back with the modification time it had
+			if _, ok := w.fs[c15Page]; ok {
+				w.remove(c15Page)
+			} else {
+				w.write(c15Page, true, "eq")
+			}
 		case "IP":
 			w.write(c15Page, false, "adv")
 		case "IC":
 			w.write(c15Comp, false, "adv")
 		case "R1", "R2", "R3", "R4", "R5", "R6", "R7":
+			w.engine = "template"
+			if kind == "R3" || kind == "R5" || kind == "R7" {
+				w.engine = "vue"
+			}
 			hitsBefore := c15Hits.Load()
 			out, err := long.render(kind)
+			if err != nil {
+				// the long-lived engine has just failed on the file this entry
+				// point loads first, if that file is missing or invalid now
+				switch kind {
+				case "R4":
+					w.failedLoad(c15Page2)
+				case "R6":
+				default:
+					w.failedLoad(c15Page)
+				}
+			}
 			fromCache := c15Hits.Load() > hitsBefore
 			fout, ferr := c15New(w.fs).render(kind)
 			o.Evals += 2
